@@ -4,7 +4,7 @@ import numpy as np
 from . import core, pylite_tie
 from .core import Case, cZ, cD, clist, cbool
 
-obligations = pylite_tie.coord_obligations   # source-regenerated tie (see harness/pylite_tie.py)
+obligations = pylite_tie.c13_obligations   # source-regenerated ties: coord_obligations + maxabs (see harness/pylite_tie.py)
 ID = "C13"
 PROPS_FILE = "Props/C13.v"
 IMPORTS = "From Verde Require Import Model.Coordinates Model.CoordCases."
